@@ -93,7 +93,8 @@ def r9_2(F, R):
 
 
 def r9_3(F, R):
-    R.rule("R9.3", "every VM::stack_push is followed on every path to any exit (including `?` exits) by VM::stack_pop")
+    R.rule("R9.3", "every VM::stack_push is followed on every path to any exit (including `?` exits) by VM::stack_pop, and every VM::stack_pop is "
+                   "preceded on every path from the function's entry by a VM::stack_push")
     n = 0
     for f in F.fns.values():
         pushes = [i for i, t in f.calls() if (callee_generic(t) or "") == "texlang::vm::VM::stack_push"]
@@ -110,6 +111,23 @@ def r9_3(F, R):
             else:
                 R.violation("R9.3", inst, "%s: execution-stack push without a pop on the path %s: error context (stack traces) is corrupted from then on" % (f.name, fmt_path(f, path)), f.loc(f.blocks[p]["t"]))
     R.floor("R9.3", "stack_push sites", n, 5)
+    # and the converse: a pop only ever undoes a push of the same function — every path from the entry to a stack_pop passes a stack_push
+    m = 0
+    for f in F.fns.values():
+        pops = [i for i, t in f.calls() if (callee_generic(t) or "") == "texlang::vm::VM::stack_pop"]
+        if not pops or strip_generics(f.name) == "texlang::vm::VM::stack_pop":
+            continue
+        pushes = [i for i, t in f.calls() if (callee_generic(t) or "") == "texlang::vm::VM::stack_push"]
+        for p in pops:
+            m += 1
+            inst = "%s@pop#%d" % (strip_generics(f.name), pops.index(p))
+            path = find_path(f, [0], lambda b: b == p, blocked=pushes)
+            if path is None:
+                R.ok("R9.3", inst, "every path to the pop passes a push", f.loc(f.blocks[p]["t"]), how="must-pass")
+            else:
+                R.violation("R9.3", inst, "%s: execution-stack pop reachable without a preceding push (%s): it removes the frame of the enclosing primitive, so a "
+                            "later error is reported with an empty stack (and rendering it unwraps `stack.last()`)" % (f.name, fmt_path(f, path)), f.loc(f.blocks[p]["t"]))
+    R.floor("R9.3", "stack_pop sites", m, 5)
 
 
 def r9_5(F, R):
